@@ -13,14 +13,15 @@ type cellEntryLen struct{ p *ssa.Parameter } // len of *p at function entry (p i
 type fvLen struct{ fv *ssa.FreeVar }
 
 type Engine struct {
-	prog    *ssa.Program
-	inMod   func(*ssa.Function) bool
-	fns     map[*ssa.Function]*Fn
-	sums    map[*ssa.Function]*Summary
-	callers map[*ssa.Function][]*ssa.Call
+	prog     *ssa.Program
+	inMod    func(*ssa.Function) bool
+	fns      map[*ssa.Function]*Fn
+	sums     map[*ssa.Function]*Summary
+	callers  map[*ssa.Function][]*ssa.Call
 	valueUse map[*ssa.Function]bool // function used as a value somewhere (not only static calls)
-	pure    map[*ssa.Function]int
-	cases   map[*ssa.Function][]retCase
+	invoked  map[string]bool        // method names called through an interface anywhere in the module
+	pure     map[*ssa.Function]int
+	cases    map[*ssa.Function][]retCase
 }
 
 type sumCand struct {
@@ -38,22 +39,25 @@ type callEnv struct {
 }
 
 type Summary struct {
-	truePost   []*sumCand // for a single bool result: facts that hold whenever the result is true
+	truePost   []*sumCand // for a bool result (index res): facts that hold whenever that result is true
 	post       []*sumCand
+	pre        []*sumCand   // preconditions on the parameters, proved at every call site (functions with known callers only)
 	cellShrink map[int]bool // param index -> callee never grows *param (candidate)
 }
 
 type Fn struct {
-	e      *Engine
-	f      *ssa.Function
-	edgeF  map[*ssa.BasicBlock][]Lin
-	edgeDQ map[*ssa.BasicBlock][]Lin
-	inv    map[*ssa.BasicBlock][]Lin
-	global []Lin
-	seen   map[interface{}]bool
-	loadOf map[*ssa.UnOp]ssa.Value // canonical representative
+	e       *Engine
+	f       *ssa.Function
+	edgeF   map[*ssa.BasicBlock][]Lin
+	edgeDQ  map[*ssa.BasicBlock][]Lin
+	inv     map[*ssa.BasicBlock][]Lin
+	global  []Lin
+	noSplit *ssa.Call // call whose precondition is being proved: its own return cases must not be used
+	pre     []Lin     // assumed preconditions (proved at every call site); not exported to callers
+	seen    map[interface{}]bool
+	loadOf  map[*ssa.UnOp]ssa.Value    // canonical representative
 	cellInv map[*ssa.Alloc][]ssa.Value // alloc -> params P with len(*alloc) <= len(P)
-	reach  map[*ssa.BasicBlock]map[*ssa.BasicBlock]bool
+	reach   map[*ssa.BasicBlock]map[*ssa.BasicBlock]bool
 }
 
 func isInt(t types.Type) bool {
@@ -104,6 +108,17 @@ func newFn(e *Engine, f *ssa.Function) *Fn {
 	s.computeReach()
 	s.canonLoads()
 	s.buildEdgeFacts()
+	if sum := e.sums[f]; sum != nil {
+		env := callEnv{
+			arg:    func(i int) Lin { return s.canon(f.Params[i]) },
+			argLen: func(i int) Lin { return s.lenOf(f.Params[i]) },
+		}
+		for _, c := range sum.pre {
+			if c.ok {
+				s.pre = append(s.pre, c.mk(env))
+			}
+		}
+	}
 	return s
 }
 
